@@ -33,7 +33,7 @@ inductive IRes (α : Type)
   | err
   | nib (e : TErr)
   | panic
-deriving Repr
+deriving Repr, DecidableEq
 
 inductive ImgKind
   | nib
